@@ -67,6 +67,7 @@ class State:
         self.reused = 0
         self.auto_named = 0
         self.duplicate_names = 0
+        self.removed_duplicate = 0
 
     @property
     def model(self):  # names currently present (with repetitions)
@@ -345,7 +346,9 @@ def apply_op(state, op):
                 require(same(before, snapshot(net)), "rejected_remove_changed_state", "a rejected remove_constraint changed the network")
                 state.rejected += 1
             else:
-                nm = names[op["k"] % len(names)]
+                nm = op["name"] if op.get("name") in names else names[op["k"] % len(names)]
+                if state.model.count(nm) > 1:
+                    state.removed_duplicate += 1
                 net.remove_constraint(nm)
                 settle_removal(state, nm)
                 state.removed.add(nm)
@@ -374,8 +377,16 @@ def apply_op(state, op):
                 if state.model.count(nm) > 1:
                     new = None  # keep it simple when the name is ambiguous
                 cur, co, flag = build_expr(op["expr"])
+                ambiguous = state.model.count(nm) > 1
+                rest = list(net.constraint_index)
+                rest.remove(nm)
                 net.update_constraint(nm, cur, op["limit"], new_name=new)
-                settle_removal(state, nm, {"name": new or nm, "limit": op["limit"], "row": row_of(co, state.stations)})
+                stored = new or nm
+                if ambiguous:
+                    # update = remove one + add under the same name, which still exists: the
+                    # re-added constraint gets a collision suffix.  Read its name back.
+                    stored = new_name_after_add(state, rest)
+                settle_removal(state, nm, {"name": stored, "limit": op["limit"], "row": row_of(co, state.stations)})
                 state.scalar_in_sum = state.scalar_in_sum or flag
                 if state.adds >= 2:
                     state.mutations_after_two_adds += 1
@@ -441,6 +452,8 @@ def labels_of(state, log):
         labs.append("auto_named")
     if state.duplicate_names:
         labs.append("duplicate_names")
+    if state.removed_duplicate:
+        labs.append("removed_one_of_two_equally_named")
     if state.json:
         labs.append("json_roundtrip")
     if state.linear_queries:
@@ -534,6 +547,19 @@ class ConstraintMachine(LoggedMachine):
         self.do(dict(q, linear=True))
         self.do(dict(q, linear=False))
 
+    @precondition(lambda self: len(self.state.model) >= 1)
+    @rule(data=st.data(), k=st.integers(0, 7), limits=st.lists(st.sampled_from([5.0, 10.5, 32.0, 80.0]), min_size=2, max_size=2, unique=True))
+    def equally_named_then_remove(self, data, k, limits):
+        """Two adds under an existing name (both are stored as "<name>_v2": the network then holds
+        two constraints of the same name), then a removal of that name: exactly one of them goes."""
+        names = sorted(set(self.state.model))
+        base = names[k % len(names)]
+        for lim in limits:
+            self.do({"op": "add", "name": base, "limit": lim, "expr": data.draw(exprs(self.ids()))})
+        dup = sorted(n for n in set(self.state.model) if self.state.model.count(n) > 1)
+        if dup:
+            self.do({"op": "remove", "k": 0, "unknown": False, "name": dup[0]})
+
     @precondition(lambda self: self.state.json < 2 and len(self.state.stations) >= 1)
     @rule()
     def json_roundtrip(self):
@@ -548,7 +574,7 @@ def subchecks(tier):
             quick=400,
             thorough=40000,
             steps=25,
-            floors={"json_roundtrip": 0.1, "linear_query": 0.05, "remove_or_update_after_two_adds": 0.134, "scalar_multiple_inside_sum": 0.128, "subset_query": 0.101, "failed_add": 0.117},
+            floors={"json_roundtrip": 0.1, "linear_query": 0.05, "remove_or_update_after_two_adds": 0.134, "scalar_multiple_inside_sum": 0.128, "subset_query": 0.101, "failed_add": 0.117, "removed_one_of_two_equally_named": 0.1},
         )
     ]
 
